@@ -70,7 +70,7 @@ COMP_POOL = ["", "", ".", ".", "..", "..", "..", "a", "b", "a", "b", "c", "..a",
              "-", "a b", "%41", "\t", "..\x01", "\xe4", "....", ". ", " ..", "lib", "lib64", "li", "lib", "usr", "us", "\x00", "a\x00b", "..\x00", "\"", "x\"y", "]: "]
 # component names that are prefixes of one another (character-level common prefix ends inside a component)
 NAME_POOL = ["lib", "lib64", "li", "..", "."]
-CONTAINERS = ["vec", "list", "sv", "deque"]
+CONTAINERS = ["vec", "list", "sv", "deque", "vsc", "pmr"]
 
 
 def rand_path(rng, maxc=10):
@@ -138,6 +138,23 @@ def fmt_cases(ctx, rng):
         f = "%%s=%%0%dd;%%s" % w
         ex = f % ("key", 12, "tail")
         cases.append("format %s sds %s %s" % (esc(f), esc("key,12,tail"), esc(ex)))
+    # the format string's own buffer as argument (stack and heap path), further promoted / wide argument types, five arguments
+    for n in [0, 3, B // 2 - 3, B // 2 - 2, B // 2 - 1, B // 2, B]:
+        f = "%s|" + "x" * n
+        cases.append("format %s s@ - %s" % (esc(f), esc(f % f)))
+    for f, k, v in [("%hd", "hd", -32768), ("%hd|%%", "hd", 32767), ("%hu", "hu", 65535), ("%d", "b", 1), ("%d", "b", 0)]:
+        cases.append("format %s %s %d %s" % (esc(f), k, v, esc(f.replace("h", "") % v)))
+    for f, k, v in [("%.3f", "f32", "0.5"), ("%g", "f32", "1.5"), ("%.2Lf", "Lf", "2.5"), ("%Lg", "Lf", "1e100")]:
+        if k:
+            cases.append("format %s %s %s %s" % (esc(f), k, v, esc(f.replace("L", "") % float(v))))
+    for w in [1, B - 9, B - 8, B - 7]:
+        f = "%%d,%%d,%%d,%%d,%%%dd" % w
+        ex = f % (1, -2, 3, -4, 5)
+        cases.append("format %s i5 %s %s" % (esc(f), esc("1,-2,3,-4,5"), esc(ex)))
+    # sizes where a narrower size type would wrap (16 bit): 32767/32768, 65535/65536
+    for L in ([32767, 32768, 65535, 65536, 70000] if not ctx.quick else [32768, 65536]):
+        a = "q" * L
+        cases.append("format %s s %s %s" % (esc("%s"), esc(a), esc(a)))
     # a wide character that cannot be converted in the "C" locale: snprintf returns a negative value
     cases.append("format %s lc %d !" % (esc("%lc"), 0x20AC))
     cases.append("format %s lc %d !" % (esc("abc%lcdef"), 0x10FFFF))
@@ -206,6 +223,20 @@ def gen(ctx):
         for a, b in [("ab", "a\x00zz"), ("ab", "\x00"), ("", "\x00a"), ("a\x00b", "a"), ("a\x00b", "b"), ("ab", "b\x00b"), ("a\x00", "a\x00")]:
             cases.append("prefix%s %s %s" % (k, esc(a), esc(b)))
             cases.append("suffix%s %s %s" % (k, esc(a), esc(b)))
+    # ALIASING and ASSIGN-BACK: one object bound to both parameters, result assigned to an argument,
+    # const char* pointing into the container's own buffer, the format string as its own %s argument
+    for p in strings_upto(5 if quick else 6):
+        e = esc(p)
+        cases += ["concat@ %s %s" % (e, e), "concat= %s %s" % (e, e), "relpath@ %s %s" % (e, e),
+                  "process= " + e, "pretty= %s 1" % e, "pretty= %s 0" % e, "prettyauto= " + e]
+        for k in range(len(p) + 1):
+            cases.append("prefix@ %s %s %d" % (e, esc(p[k:]), k))
+            cases.append("suffix@ %s %s %d" % (e, esc(p[k:]), k))
+    for a in es[:341]:
+        for b in es[:85]:
+            cases.append("concat=base %s %s" % (a, b))
+            cases.append("concat=p %s %s" % (a, b))
+            cases.append("relpath=p %s %s" % (a, b))
     # seeded long paths
     rng = ctx.rng("gen")
     N = 1500 if quick else 30000
@@ -229,9 +260,23 @@ def gen(ctx):
         cases.append("relpath %s %s" % (esc(a), esc(b)))
         cases.append("concat %s %s" % (esc(a), esc(b)))
         x = rng.choice([a[:rng.randrange(len(a) + 1)], a[rng.randrange(len(a) + 1):], b[:3], "/", "..", ""])
-        k = rng.choice(["", "_vec", "_list", "_sv", "_deque"])
+        k = rng.choice(["", "_vec", "_list", "_sv", "_deque", "_vsc", "_pmr"])
         cases.append("prefix%s %s %s" % (k, esc(a), esc(x)))
         cases.append("suffix%s %s %s" % (k, esc(a), esc(x)))
+    # BOUNDARIES: results around the small-string size of std::string (15/16) and long inputs
+    for n in range(12, 20):
+        for p in ["a" * n, "/" + "a" * (n - 1), "a" * (n - 3) + "/..", "ab/" + "c" * (n - 3), "../" * (n // 3) + "x" * (n % 3), "/" * n, "./" * (n // 2)]:
+            cases += unary_cases(p)
+            cases.append("concat %s %s" % (esc(p[:n // 2]), esc(p[n // 2:])))
+            cases.append("relpath %s %s" % (esc(p), esc(p[:n // 2])))
+            cases.append("process= " + esc(p))
+    big = 400 if quick else 2000
+    for p in ["/".join(["a"] * big + [".."] * big), "/".join(["a"] * big + [".."] * (big + 7)), "/" + "/".join([".."] * big),
+              "/" * (3 * big), "./" * big + "a", "/".join(["ab", ".."] * big) + "/c", "x" * (5 * big), "/".join(["d%d" % i for i in range(big)])]:
+        cases += unary_cases(p)
+        cases.append("relpath %s %s" % (esc(p), esc("a/b")))
+        cases.append("relpath %s %s" % (esc("/".join(["a"] * big)), esc(p)))
+        cases.append("concat@ %s %s" % (esc(p), esc(p)))
     cases += fmt_cases(ctx, rng)
     return cases, ncorpus, (L1, L2, L3, N, L4)
 
@@ -241,6 +286,8 @@ def nontrivial(case):
     if t[0] == "format":
         return t[4] == "!" or len(unesc(t[4])) >= bufsize() - 2
     args = [unesc(x) for x in t[1:] if x.startswith(":")]
+    if t[0] in ("prefix@", "suffix@"):
+        return len(unesc(t[1])) > 0
     if t[0].startswith("prefix") or t[0].startswith("suffix"):
         return len(args) == 2 and len(args[1]) > 0 and len(args[0]) >= len(args[1])
     for a in args:
@@ -331,6 +378,8 @@ def run(ctx):
                 "+ all pairs over {'/','.','a'} of length <= %d x {hasPrefix, hasSuffix} (std::string; length <= 3 also for vector/list/deque<char> and string_view, "
                 "plus const char* arguments with an embedded NUL) + ALL same-absoluteness pairs of paths with <= %d components from {lib, lib64, li, .., .} x relativePath + %d seeded long paths / related pairs from a component pool "
                 "(incl. '..a', '...', blanks, control and 8-bit characters) + formatString expansions of lengths around the buffer size %d; "
+                "+ aliasing/assign-back forms (one object in both roles, result assigned to an argument, const char* into the container's own buffer, format string as its own argument) for all strings <= 5/6 "
+                "+ results around the small-string size and long inputs + 16-bit-wrap format lengths; every case is executed twice (determinism) and the arguments are checked to be untouched; "
                 "non-trivial = some path argument has a '.', '..' or empty inner component (normalisation has work to do) / the suffix-prefix argument is "
                 "non-empty and not longer than the string / the format expansion is >= bufferSize-2 long; distinct = distinct case lines" % (L1, L2, L3, L4, N, B),
         "samples": cases[:3] + cases[ncorpus + 40000: ncorpus + 40003] + cases[len(cases) // 2: len(cases) // 2 + 2] + cases[-400:-398] + [c[:120] for c in cases[-2:]],
